@@ -35,7 +35,7 @@ Definition ffuel : nat := 700.
 
 Definition val_eqb (a b : val) : bool :=
   match a, b with
-  | VUndef, VUndef | VNaN, VNaN | VRefErr, VRefErr | VHalt, VHalt | VBig, VBig | VOther, VOther => true
+  | VUndef, VUndef | VNaN, VNaN | VRefErr, VRefErr | VHalt, VHalt | VHaltCaught, VHaltCaught | VBig, VBig | VOther, VOther => true
   | VNum n, VNum m => n =? m
   | VBool x, VBool y => Bool.eqb x y
   | _, _ => false
